@@ -591,7 +591,11 @@ class FileSystemSink(DataSink):
             # (an unregistered custom object is not validated)
             value = stix_obj.get(name)
             if not isinstance(value, str) or value in ("", ".", "..") \
-                    or os.path.basename(value) != value:
+                    or os.path.basename(value) != value \
+                    or "\x00" in value \
+                    or len(os.fsencode(value)) > 250:
+                # (nor one no file could be named after: failing on that
+                # while writing would leave part of a lot behind)
                 raise ValueError("Can't store an object with '{}' {!r}".format(name, value))
 
         type_dir = os.path.join(self._stix_dir, stix_obj["type"])
